@@ -1,4 +1,5 @@
-import GIV.Lemmas.CachePutConcRestore
+import GIV.Lemmas.CachePutConcReadable
+import GIV.Lemmas.CachePutMix
 /-!
 # C11 — concurrent cache users never observe corrupt or foreign data
 
@@ -215,5 +216,82 @@ theorem restore_invisible (hy : Hyps P offered) {id0 : Id} {c0 : Bytes} (hc0 : o
 
 example : OnlyC0 (1 : Nat) [8, 9, 10] (.put 1 goodSrc) ∧ OnlyC0 (1 : Nat) [8, 9, 10] (.getBytes 1) :=
   ⟨fun _ => rfl, trivial⟩
+
+/-- **stored stays readable** (this is "once all writers have finished every stored ID is readable", and
+more): the execution starts from a directory in which `id0` has a whole index entry and the outputs named
+by the entries present are complete — the state `quiescent_all_readable` describes.  Then, whatever any
+number of tasks Put concurrently (for `id0` or other ids, identical or differing contents, any schedule),
+every lookup of `id0` SUCCEEDS — never a miss —, and what it reports is a content stored for `id0` at the
+start or by a Put that had executed its index write, with matching hash and size and complete bytes. -/
+theorem stored_stays_readable (hy : Hyps P offered) {id0 : Id} {w0 w : World Id Hsh} {ls : List Label}
+    (hinv : FSInvP P offered w0.fs) (hi : Initial offered w0) (hfull : IndexFull w0.fs id0)
+    (hcomplete : ∀ id c, InitialEntry P offered w0.fs id c → CompleteF P w0.fs c)
+    (hf : FaultFree ls) (hr : run P w0 ls = some w)
+    {tid : Nat} {op : Op Id} {res : Result Hsh} (hop : op.isGet = true) (hid : op.id = id0)
+    (hret : Ev.ret tid op res ∈ w.hist) :
+    let stored := fun c => InitialEntry P offered w0.fs id0 c ∨ ∃ t, Ev.indexed t id0 c ∈ w.hist
+    (∃ c, stored c ∧ res = .entry ⟨P.H c, c.length⟩) ∨
+    (∃ c, stored c ∧ res = .file ⟨P.H c, c.length⟩ (some c)) ∨
+    (∃ c, stored c ∧ res = .bytes c ⟨P.H c, c.length⟩) := by
+  have h := stored_stays_readable_run hy hinv hi hfull hcomplete hf hr hop hid hret
+  cases res <;> simp only [ResQ] at h
+  case entry e => obtain ⟨c, h1, _, rfl⟩ := h; exact Or.inl ⟨c, h1, rfl⟩
+  case file e cont => obtain ⟨c, h1, _, rfl, rfl⟩ := h; exact Or.inr (Or.inl ⟨c, h1, rfl⟩)
+  case bytes d e => obtain ⟨h1, _, rfl⟩ := h; exact Or.inr (Or.inr ⟨d, h1, rfl⟩)
+  all_goals exact h.elim
+
+/-- a directory in which id 1 is stored with `[8, 9, 10]`. -/
+def storedFS : FS Nat Bytes :=
+  { names := fun p => if p = .index 1 then some 0 else if p = .data [8, 9, 10] then some 1 else none,
+    inodes := fun i => if i = 0 then some ⟨.index 1, toyEnc 1 [8, 9, 10] 3 0⟩
+                       else if i = 1 then some ⟨.data [8, 9, 10], [8, 9, 10]⟩ else none,
+    nextIno := 2, fds := fun _ => none, nextFd := 0 }
+
+example : IndexFull storedFS (1 : Nat) ∧ CompleteF toyP storedFS [8, 9, 10] ∧ IndexIs toyP 1 [8, 9, 10] storedFS :=
+  ⟨⟨0, _, rfl, rfl, by simp only [toyEnc, List.length_append, List.length_cons, List.length_nil, List.length_replicate, Gen.CachePut.entrySize]⟩, ⟨1, _, rfl, rfl, rfl⟩, ⟨0, rfl⟩⟩
+
+omit [DecidableEq Id] [DecidableEq Hsh] in
+/-- **mix_parse_same** (the torn-read corner, beyond AtomicSmallWrite): for an entry codec with fixed
+field positions (`FixedFields`: the entry is a prefix determined by (id, output, size), a space and 19
+digits of the time stamp, a suffix; `parse` accepts any 19 digits with leading digit ≤ 8 there), ANY
+byte-wise mixture of two entries with equal (id, output, size) parses to that (output, size): a read of
+the entry torn by a concurrent re-store of identical content still finds the stored output. -/
+theorem mix_parse_same (F : FixedFields P) (id : Id) (out : Hsh) (size : Nat) (t1 t2 : Int)
+    (hs : F.okSize size) (h1 : F.okTime t1) (h2 : F.okTime t2) {m : Bytes}
+    (hm : Mixture m (P.enc id out size t1) (P.enc id out size t2)) : P.parse id m = some ⟨out, size⟩ :=
+  GIV.CachePut.mix_parse_same F id out size t1 t2 hs h1 h2 hm
+
+/-- a small codec with fixed field positions: `[out, size, ' ', 19 digits, '\n']`. -/
+def mixP : Params Nat UInt8 :=
+  ⟨fun b => b.headD 0,
+   fun _ out size t => [out, size.toUInt8] ++ (32 :: List.replicate 19 (if t = 1 then 49 else 50)) ++ [10],
+   fun _ bs => match bs with
+     | a :: b :: _ => some ⟨a, b.toNat⟩
+     | _ => none⟩
+
+def mixF : FixedFields mixP where
+  pre := fun _ out size => [out, size.toUInt8]
+  post := [10]
+  digits := fun t => List.replicate 19 (if t = 1 then 49 else 50)
+  okTime := fun _ => True
+  okSize := fun size => size < 256
+  enc_eq := fun _ _ _ _ _ => rfl
+  digits_ok := fun t _ => by
+    refine ⟨by simp, fun b hb => ?_, fun b hb => ?_⟩
+    · have := List.eq_of_mem_replicate hb
+      subst this; unfold IsDigit; split <;> decide
+    · simp [List.replicate] at hb
+      subst hb; unfold IsLead; split <;> decide
+  parse_any := fun _ out size ds hs _ => by
+    simp only [mixP, List.cons_append, List.nil_append]
+    congr 2
+    simp [Nat.toUInt8, UInt8.toNat_ofNat']
+    omega
+
+example : Mixture ([7, 3, 32] ++ (49 :: List.replicate 18 50) ++ [10]) (mixP.enc 0 7 3 1) (mixP.enc 0 7 3 2) ∧
+    mixP.parse 0 ([7, 3, 32] ++ (49 :: List.replicate 18 50) ++ [10]) = some ⟨7, 3⟩ := by
+  refine ⟨?_, rfl⟩
+  simp only [mixP, List.replicate, List.cons_append, List.nil_append, Nat.toUInt8]
+  repeat (first | exact Mixture.nil | apply Mixture.cons_a | apply Mixture.cons_b)
 
 end GIV.C11
